@@ -189,6 +189,17 @@ Theorem C15_stop_waits : forall es s i,
 Proof. exact stop_waits. Qed.
 Print Assumptions C15_stop_waits.
 
+(* ... AND THE CLEANER STAYS QUIET.  Once some Stop call has returned, in every continuation of the
+   schedule the cleaner never takes a tick and no cleanup pass starts or finishes
+   ([cleaner_work e] = e is [LTick] or [LCleanupDone]): the periodic pass runs on the cleaner
+   goroutine itself, which has exited for good. *)
+Theorem C15_stop_then_quiet : forall es s i es' s',
+  lrun linit es = Some s -> nth_error (lcallers s) i = Some SReturned ->
+  lrun s es' = Some s' ->
+  lcleaner s' = PExited /\ forallb (fun e => negb (cleaner_work e)) es' = true.
+Proof. exact stop_then_quiet. Qed.
+Print Assumptions C15_stop_then_quiet.
+
 (* ... the cleaner exits only if Stop was called ... *)
 Theorem C15_cleaner_exits_only_on_stop : forall es s,
   lrun linit es = Some s -> lcleaner s = PExited -> lstopped s = true.
@@ -259,12 +270,13 @@ Print Assumptions C15_oracle_misses_justified.
 
 (* The oracle also demands that Stop was observed to return and the cleaner to have exited; in a
    case of several overlapping Stop calls, that EVERY call returned and that the cleaner had
-   exited when it did. *)
+   exited when it did, and that no background cleanup work was seen after a Stop had returned. *)
 Theorem C15_oracle_stop : forall c,
   oracle c = true ->
   match c with
   | CSeq _ _ _ sr ce | CConc _ _ _ sr ce => sr = true /\ ce = true
-  | CStops calls => forall sr ce, In (sr, ce) calls -> sr = true /\ ce = true
+  | CStops calls late =>
+      (forall sr ce, In (sr, ce) calls -> sr = true /\ ce = true) /\ late = false
   end.
 Proof. exact main_oracle_stop. Qed.
 Print Assumptions C15_oracle_stop.
